@@ -145,7 +145,8 @@ CLAIMED["C02"] = {
             "the source's word sequence, the wrapped form is a function of the word sequence, hence wrapping the wrapped lines again "
             "changes nothing (plain mode, whitespace splitter) - and in Markdown mode as well: with the escapes the first pass put at line heads "
             "in place the second pass makes the same decisions (any idempotent escape that never shortens a word; markdown_escape_word is "
-            "proved to be one); unclosed frontmatter is a fixpoint of the whole formatter (C07). The "
+            "proved to be one); the cleanup stage is idempotent on every tree (Proofs/CleanupIdem.v, after fix b925259); unclosed frontmatter "
+            "is a fixpoint of the whole formatter (C07). The "
             "document-level claim is decided by two-pass runs: the extracted pipeline model and the implementation are compared on the "
             "inputs of both passes, and format(format(x)) is compared byte for byte with format(x) over random option sets (all widths "
             "classes, both modes, typography, cleanups, three list spacings) and plaintext mode.",
